@@ -364,21 +364,26 @@ pub fn propagate_comparison(
         match op {
             Operator::Eq => {
                 // TODO: Propagation is not possible until we support interval sets.
-                Ok(None)
+                // `None` would mean "infeasible": keep the children as they are.
+                Ok(Some((left_child.clone(), right_child.clone())))
             }
-            Operator::Gt => satisfy_greater(right_child, left_child, false),
-            Operator::GtEq => satisfy_greater(right_child, left_child, true),
-            Operator::Lt => satisfy_greater(left_child, right_child, false)
+            // NOT (left > right)  <=>  right >= left; `satisfy_greater` returns the
+            // intervals in the order of its arguments, so swap them back.
+            Operator::Gt => satisfy_greater(right_child, left_child, false)
                 .map(|t| t.map(reverse_tuple)),
-            Operator::LtEq => satisfy_greater(left_child, right_child, true)
+            Operator::GtEq => satisfy_greater(right_child, left_child, true)
                 .map(|t| t.map(reverse_tuple)),
+            // NOT (left < right)  <=>  left >= right
+            Operator::Lt => satisfy_greater(left_child, right_child, false),
+            Operator::LtEq => satisfy_greater(left_child, right_child, true),
             _ => internal_err!(
                 "The operator must be a comparison operator to propagate intervals"
             ),
         }
     } else {
-        // Uncertainty cannot change any end-point of the intervals.
-        Ok(None)
+        // Uncertainty cannot change any end-point of the intervals (`None` would
+        // mean "infeasible").
+        Ok(Some((left_child.clone(), right_child.clone())))
     }
 }
 
